@@ -460,7 +460,9 @@ class MSNest(nn.Module):
 
 
 def _ms_prog(mdl, x):
-  h = sum(jnp.tanh(m(x)) * (j + 1) for j, m in enumerate(mdl.shared))
+  terms = [jnp.tanh(m(x)) * (j + 1) for j, m in enumerate(mdl.shared)]
+  # (no outside module: the module's own scope is the only one lifted)
+  h = sum(terms) if terms else jnp.tanh(jnp.sum(x)) * jnp.ones((3,))
   return MSLin(0.3, 2, name='out')(h)
 
 
@@ -504,19 +506,19 @@ def _ms_path(j, d):
 
 @clause('multi_scope_vjp',
         strategy=lambda: st.fixed_dictionaries({
-            'depths': st.lists(st.integers(0, 3), min_size=1, max_size=3),
-            'core_depths': st.lists(st.integers(1, 3), min_size=2, max_size=3),
+            'depths': st.lists(st.integers(0, 3), min_size=0, max_size=3),
+            'core_depths': st.lists(st.integers(1, 3), min_size=1, max_size=3),
             'din': st.integers(1, 4), 'seed': st.integers(0, 2**16)}),
         quick=60, thorough=2000, quick_shards=6, thorough_shards=16,
         shrink=False,
         rule='(linen) a module differentiating with nn.vjp(multi_scope=True) '
-        'a program that uses 1-3 modules handed in from outside, each living '
+        'a program that uses 0-3 modules handed in from outside, each living '
         '0-3 levels deep elsewhere in the module tree: primal output and input '
         'cotangent equal jax.vjp of the pure apply; the returned per-scope '
         'cotangents are, as a collection, the jax.vjp cotangents of the '
         'outside modules\' and the module\'s own params, and their positions '
         'do not depend on how deep the outside modules live (same list as '
-        'the all-top-level placement); (core) lift.vjp over a tuple of 2-3 '
+        'the all-top-level placement); (core) lift.vjp over a tuple of 1-3 '
         'scopes at depths 1-3 returns cotangent i for scope i of the tuple; '
         'non-trivial = >=2 outside modules at different depths')
 def multi_scope_vjp(case, ctx):
@@ -589,7 +591,10 @@ def multi_scope_vjp(case, ctx):
     V = jax.tree_util.tree_map(lambda v: v * 2.0, unfreeze(V))
     y, v_cts, x_ct = core_apply(program)(V, x)
   sx = float(jnp.sum(x))
-  require(len(v_cts) == len(cd), 'one cotangent tree per scope of the tuple')
+  require(isinstance(v_cts, (tuple, list)) and len(v_cts) == len(cd), lambda:
+          f'lift.vjp over a tuple of {len(cd)} scopes returned variable '
+          f'cotangents of structure {jax.tree_util.tree_structure(v_cts)}: '
+          'expected one cotangent tree per scope of the tuple')
   for i in range(len(cd)):
     exp = (i + 1.0) * sx ** (i + 1)
     got_i = float(unfreeze(v_cts[i])['params']['w'])
